@@ -9,9 +9,10 @@ tests=$( /venv/bin/python -m pytest -q -p no:cacheprovider bitcoin/tests 2>&1 | 
 d="n/a"
 if [ -n "$demo" ]; then PYTHONPATH=$tree /venv/bin/python $demo > /dev/null 2>&1; d="demo-exit=$?"; fi
 cd /verif
-out=$(PYVC_REPO=$tree timeout 1500 ./check $prop quick 2>&1)
+mkdir -p /tmp/seed_ev
+out=$(PYVC_REPO=$tree PYVC_EVIDENCE_DIR=/tmp/seed_ev timeout 2400 ./check $prop quick 2>&1)
 rc=$?
 echo "SEED $(basename $(dirname $patch))/$(basename $patch): tests[$tests] $d check-exit=$rc :: $(echo "$out" | grep -c '^VIOLATION') violation lines; $(echo "$out" | tail -n 1)"
-echo "$out" | grep "refuted:\|replayed\|UNDECIDED" | head -6 | cut -c1-260
+echo "$out" | grep "refuted:\|replayed\|UNDECIDED\|PROOF-BROKEN\|bounded unit" | head -6 | cut -c1-260
 cd $tree && git checkout -q -- .
 if [ -n "$demo" ]; then PYTHONPATH=$tree /venv/bin/python $demo > /dev/null 2>&1; echo "   demo on clean tree exit=$?"; fi
